@@ -14,6 +14,71 @@ import sx
 from common import Reporter, loc_of
 
 
+def pc_glue(P, rep, prefix="C03.glue"):
+    """pass 2, one round of the item loop: `pc` is stored for the item before the encoder runs, it is the very counter the encoder gets as
+    current_address, and the counter does not move in between"""
+    # ---- glue in pass 2
+    key = "builder::pass2::pass_2_internal"
+    b = P.body.get(key)
+    if b is None:
+        rep.unprovable(prefix + "|anchor", "pass_2_internal not found")
+        return
+    ch = MU.Chaser(b)
+    idom = G.dominators(b)
+    proc = [(bb, t) for bb, t, n, tg in P.call_sites(key) if "instruction::process" in tg]
+    setsp = [(bb, t) for bb, t, n, tg in P.call_sites(key) if any(x.endswith("::set_special") for x in tg)]
+    if len(proc) != 1 or not setsp:
+        rep.unprovable(prefix + "|shape", "encoder call / set_special call not found in pass_2_internal (%d/%d)" % (len(proc), len(setsp)))
+        return
+    pbb, pt = proc[0]
+    addr_root, addr_proj, _ = ch.root(pt["args"][2], through_calls=False)
+    pcs = []
+    for sbb, stt in setsp:
+        locs, consts, calls, places = MU.backward_slice(b, [stt["args"][1]])
+        if any(c.get("str") == "pc" for c in consts):
+            pcs.append((sbb, stt))
+    # within one round of the item loop: every store of `pc` from which the encoder call can still be reached must store the very
+    # counter the encoder gets, unmodified in between, and at least one such store lies on every path to the encoder call
+    import rules_C16
+    loops = [(h, nodes) for h, nodes in rules_C16.natural_loops(b).items() if pbb in nodes]
+    head, nodes = min(loops, key=lambda x: len(x[1])) if loops else (None, set(range(len(b["blocks"]))))
+
+    def reaches_encoder(x):
+        return pbb in G.reach_blocks(b, x, lambda y: y == head and y != x)
+
+    def good(sbb, stt):
+        vroot, vproj, _ = ch.root(stt["args"][2], through_calls=False)
+        d = ch.single_def(vroot)
+        src = None
+        if d and d[0] == "stmt" and d[2]["k"] == "agg" and d[2]["kind"].get("vname") == "Const" and d[2]["ops"]:
+            src, sproj, _ = ch.root(d[2]["ops"][0], through_calls=False)
+        same = src is not None and src == addr_root and not addr_proj
+        between = G.reach_blocks(b, sbb, lambda x: x == pbb or x == head)
+        wr = False
+        for x in between:
+            if x == sbb:
+                continue
+            for st in b["blocks"][x]["stmts"]:
+                if st["k"] == "assign" and st["place"]["local"] == addr_root and pbb in G.reach_blocks(b, x, lambda y: y == head and y != x):
+                    wr = True
+        return same, not wr
+
+    live = [(sbb, stt) for sbb, stt in pcs if sbb in nodes and sbb != pbb and reaches_encoder(sbb)]
+    rep.count("stores of `pc` that can reach the encoder call within one item", len(live))
+    doms = [x for x in live if G.dominates(idom, x[0], pbb)]
+    rep.ob(prefix + "|pc-before-encode", bool(doms), "a store of `pc` lies on every path from the start of the item to the encoder call" if doms else
+           "the encoder can run for an item without `pc` having been stored for that item (a `pc`-relative target then uses the address of an earlier item)",
+           loc=loc_of(b["blocks"][pbb]["tspan"]))
+    bad_same = [x for x in live if not good(*x)[0]]
+    bad_stable = [x for x in live if not good(*x)[1]]
+    rep.ob(prefix + "|same-counter", not bad_same,
+           "`pc` is Expr::Const of the very counter (_%d) that is passed to the encoder as current_address (copies and casts only)" % addr_root if not bad_same else
+           "`pc` is not a plain copy of the counter passed to the encoder as current_address (offset added or different value)",
+           loc=loc_of(b["blocks"][(bad_same or live or [(pbb, None)])[0][0]]["tspan"]))
+    rep.ob(prefix + "|counter-stable", not bad_stable, "the counter is not modified between the `pc` store and the encoder call" if not bad_stable else
+           "the counter is modified between the `pc` store and the encoder call")
+
+
 def run(tier):
     rep = Reporter("C03", tier, "proof", "linear-form and value-set dataflow on the relative-displacement term of the encoder; def-use/dominance in pass 2")
     rep.explanation = ("For each relative instruction the displacement term is recovered from the path (a derived atom with its own value set), "
@@ -76,66 +141,7 @@ def run(tier):
                "%s: field = two's complement of the displacement at the ISA position (%s)" % (form, r["pattern"]) if ok_enc else
                "%s: displacement field mis-placed: %s" % (form, "; ".join(f[2] for f in enc if not f[1]) or "no comparison"))
     rep.floor("relative instruction forms", nrel, 22)
-    # ---- glue in pass 2
-    key = "builder::pass2::pass_2_internal"
-    b = P.body.get(key)
-    if b is None:
-        rep.unprovable("C03.glue|anchor", "pass_2_internal not found")
-        return rep
-    ch = MU.Chaser(b)
-    idom = G.dominators(b)
-    proc = [(bb, t) for bb, t, n, tg in P.call_sites(key) if "instruction::process" in tg]
-    setsp = [(bb, t) for bb, t, n, tg in P.call_sites(key) if any(x.endswith("::set_special") for x in tg)]
-    if len(proc) != 1 or not setsp:
-        rep.unprovable("C03.glue|shape", "encoder call / set_special call not found in pass_2_internal (%d/%d)" % (len(proc), len(setsp)))
-        return rep
-    pbb, pt = proc[0]
-    addr_root, addr_proj, _ = ch.root(pt["args"][2], through_calls=False)
-    pcs = []
-    for sbb, stt in setsp:
-        locs, consts, calls, places = MU.backward_slice(b, [stt["args"][1]])
-        if any(c.get("str") == "pc" for c in consts):
-            pcs.append((sbb, stt))
-    # within one round of the item loop: every store of `pc` from which the encoder call can still be reached must store the very
-    # counter the encoder gets, unmodified in between, and at least one such store lies on every path to the encoder call
-    import rules_C16
-    loops = [(h, nodes) for h, nodes in rules_C16.natural_loops(b).items() if pbb in nodes]
-    head, nodes = min(loops, key=lambda x: len(x[1])) if loops else (None, set(range(len(b["blocks"]))))
-
-    def reaches_encoder(x):
-        return pbb in G.reach_blocks(b, x, lambda y: y == head and y != x)
-
-    def good(sbb, stt):
-        vroot, vproj, _ = ch.root(stt["args"][2], through_calls=False)
-        d = ch.single_def(vroot)
-        src = None
-        if d and d[0] == "stmt" and d[2]["k"] == "agg" and d[2]["kind"].get("vname") == "Const" and d[2]["ops"]:
-            src, sproj, _ = ch.root(d[2]["ops"][0], through_calls=False)
-        same = src is not None and src == addr_root and not addr_proj
-        between = G.reach_blocks(b, sbb, lambda x: x == pbb or x == head)
-        wr = False
-        for x in between:
-            if x == sbb:
-                continue
-            for st in b["blocks"][x]["stmts"]:
-                if st["k"] == "assign" and st["place"]["local"] == addr_root and pbb in G.reach_blocks(b, x, lambda y: y == head and y != x):
-                    wr = True
-        return same, not wr
-
-    live = [(sbb, stt) for sbb, stt in pcs if sbb in nodes and sbb != pbb and reaches_encoder(sbb)]
-    rep.count("stores of `pc` that can reach the encoder call within one item", len(live))
-    doms = [x for x in live if G.dominates(idom, x[0], pbb)]
-    rep.ob("C03.glue|pc-before-encode", bool(doms), "a store of `pc` lies on every path from the start of the item to the encoder call" if doms else
-           "the encoder can run for an item without `pc` having been stored for that item (a `pc`-relative target then uses the address of an earlier item)",
-           loc=loc_of(b["blocks"][pbb]["tspan"]))
-    bad_same = [x for x in live if not good(*x)[0]]
-    bad_stable = [x for x in live if not good(*x)[1]]
-    rep.ob("C03.glue|same-counter", not bad_same,
-           "`pc` is Expr::Const of the very counter (_%d) that is passed to the encoder as current_address (copies and casts only)" % addr_root if not bad_same else
-           "`pc` is not a plain copy of the counter passed to the encoder as current_address (offset added or different value)",
-           loc=loc_of(b["blocks"][(bad_same or live or [(pbb, None)])[0][0]]["tspan"]))
-    rep.ob("C03.glue|counter-stable", not bad_stable, "the counter is not modified between the `pc` store and the encoder call" if not bad_stable else
-           "the counter is modified between the `pc` store and the encoder call")
+    pc_glue(P, rep)
     # the target that was named: a label called r16_loop or zero is a label, not a register with something behind it
     import grammar
     import layout_match
@@ -144,6 +150,11 @@ def run(tier):
         rep.unprovable("C03.grammar|cross-check", "grammar reader disagrees with the compiled parser: %s" % pr)
     layout_match.use_conditions(P)
     layout_match.identifier_operands(g, rep, "C03.target", shapes=("target", "branch-target", "call-target"), floor=40)
+    # the label a branch names has the value pass 1 gave it: pass 1 must count every instruction as long as pass 2 makes it
+    import rules_C02
+    from common import Rekey
+    rules_C02.clause_a(P, Rekey(rep, "C02.a|", "C03.layout|length|"))
+    rules_C02.clause_bc(P, Rekey(rep, "C02.b|instruction", "C03.layout|instruction"))
     import rules_C10
     rules_C10.equ_is_lazy(P, rep, "C03.target|equ-of-pc", "`.equ here = pc` / ... / `rjmp here` jumps to the rjmp itself (displacement -1), not to the place of the .equ line")
     return rep
